@@ -110,9 +110,14 @@ def dwarf_view(dw):
 _RELOCATE = [None]      # relocate_dwarf_sections argument of the current run (None = the library's default)
 
 
-def open_view(data, peers=None, follow=True, loader=True, peer_faults=None):
-    """-> dict(outcome='view'|'rejected', view=..., exc=..., loads=[...], fired=bool)"""
+def open_view(data, peers=None, follow=True, loader=True, peer_faults=None, relative_base=None):
+    """-> dict(outcome='view'|'rejected', view=..., exc=..., loads=[...], fired=bool)
+    relative_base: use the library's own path-based loader (ELFFile.make_relative_loader(base)) instead of handing the
+    simulated loader over directly; the `open` it calls is the simulated file system's (patched at the module seam)."""
     kw = {} if _RELOCATE[0] is None else {'relocate_dwarf_sections': _RELOCATE[0]}
+    import os
+    import io
+    import builtins
     from elftools.elf.elffile import ELFFile
     clock = IOClock()
     fs = SimFS(clock)
@@ -121,8 +126,24 @@ def open_view(data, peers=None, follow=True, loader=True, peer_faults=None):
         fs.add(path, pdata, mode=pf.get('mode', 'ok'), eof=pf.get('eof'), subs=pf.get('subs'))
     stream = SimStream(data, 'main', clock)
     out = dict(loads=fs.loads, sim_time=0)
+    if relative_base is not None:
+        bdir = os.path.dirname(relative_base if isinstance(relative_base, bytes) else relative_base.encode('utf-8'))
+
+        real_open, real_io_open = builtins.open, io.open
+
+        def sim_open(path, mode='r', *a, **k):
+            # the file-system seam: everything under /sim/ is served by the simulated file system
+            key = os.fsencode(path) if isinstance(path, (str, bytes, os.PathLike)) else None
+            if key is None or not key.startswith(b'/sim/'):
+                return real_open(path, mode, *a, **k)
+            return fs.loader(key[len(bdir) + 1:] if key.startswith(bdir + b'/') else key)
+        builtins.open = sim_open
+        io.open = sim_open
     try:
-        elf = ELFFile(stream, fs.loader if loader else None)
+        if relative_base is not None:
+            elf = ELFFile(stream, ELFFile.make_relative_loader(relative_base))
+        else:
+            elf = ELFFile(stream, fs.loader if loader else None)
         out['strict'] = elf.has_dwarf_info(strict=True)
         out['nonstrict'] = elf.has_dwarf_info(strict=False)
         out['has_link'] = elf.has_dwarf_link()
@@ -136,6 +157,9 @@ def open_view(data, peers=None, follow=True, loader=True, peer_faults=None):
     except Exception as e:
         out['outcome'] = 'rejected'
         out['exc'] = exc_obs(e)
+    finally:
+        if relative_base is not None:
+            builtins.open, io.open = real_open, real_io_open
     out['sim_time'] = clock.seq
     out['peer_fired'] = any(s.fired or s.eof_fired for s in fs.streams)
     return out
@@ -218,6 +242,12 @@ def _c11_plan(tier, seed):
         if info[n]['sup']:
             for cfg in ('sup_plain', 'sup_main_gabi', 'sup_peer_gabi', 'sup_both_gabi', 'sup_noloader', 'sup_nofollow', 'sup_split_link'):
                 plan.append((n, cfg, None))
+        if not info[n]['sup']:
+            # bytes behind the checksum; the library's path-based loader with names and directories that are not UTF-8
+            plan.append((n, 'split_link', {'peer': 'plain', 'link_trailing': 4}))
+            plan.append((n, 'split_link', {'peer': 'gabi', 'link_trailing': 8}))
+            plan.append((n, 'split_link', {'peer': 'plain', 'loader_kind': 'relative', 'base': 'bytes', 'linkname_hex': b'\xe9t\xe9.debug'.hex()}))
+            plan.append((n, 'split_link', {'peer': 'plain', 'loader_kind': 'relative', 'base': 'str', 'linkname': 'sub/peer.debug'}))
         if info[n]['relocs'] and not info[n]['sup']:
             # relocatable objects: the caller's relocate_dwarf_sections=False must reach every container alike
             for cfg, params in (('identity', {}), ('gabi', {'level': 6}), ('split_link', {'peer': 'plain'}), ('split_link', {'peer': 'gabi'})):
@@ -258,7 +288,14 @@ def _c11_gen(seed, tier, index):
         cfg = 'gabi'
     if cfg == 'split_link':
         params['peer'] = r.choice(['plain', 'gabi', 'zdebug'])
-        params['linkname'] = r.choice(['peer.debug', 'dir/peer.debug', 'x', 'été.debug', 'a' * 61])
+        params['linkname'] = r.choice(['peer.debug', 'dir/peer.debug', 'x', 'été.debug', 'a' * 61, 'abc', 'abcd', 'a' * 4095, 'a' * 4096])
+        params['link_trailing'] = r.choice([0, 0, 0, 4, 7, 16])
+        if r.random() < 0.3:
+            params['loader_kind'] = 'relative'
+            params['base'] = r.choice(['str', 'bytes'])
+            if r.random() < 0.5:
+                params.pop('linkname')
+                params['linkname_hex'] = r.choice([b'\xe9t\xe9.debug', b'caf\xe9/peer.debug', b'\xff\xfe.dbg']).hex()
     if cfg.startswith('fault:') and cfg != 'fault:link_crc':
         params['delta'] = r.choice([-1, -2, -7, -64, 1, 2, 9, 4096, -(1 << 20)])
         cands = [x for x in subset if x in READ_SECTIONS]
@@ -464,7 +501,14 @@ def _c11_exec2(spec):
             for s in peer_img.debug_sections():
                 peer_img.to_zdebug(s, level)
         peer = peer_img.build()
-        linkname = p.get('linkname', 'peer.debug').encode('utf-8')
+        linkname = bytes.fromhex(p['linkname_hex']) if p.get('linkname_hex') else p.get('linkname', 'peer.debug').encode('utf-8')
+        trailing = b''
+        if p.get('link_trailing'):
+            trailing = bytes(p['link_trailing']) if p['link_trailing'] % 8 else bytes((37 * i + 11) & 0xff for i in range(p['link_trailing']))
+        rbase = None
+        if p.get('loader_kind') == 'relative':
+            # the library's own path-based loader, base path as text or as bytes (a directory name that is not UTF-8)
+            rbase = '/sim/d\u00e9p/main.elf' if p.get('base') == 'str' else b'/sim/d\xe9p/main.elf'
         main = _plain_image(data)
         for s in main.debug_sections():
             main.rename(s, '.stripped_' + s['name'].lstrip('.'))
@@ -473,7 +517,7 @@ def _c11_exec2(spec):
         crc = elfedit.crc32(peer)
         if cfg == 'fault:link_crc' and p.get('mode') == 'field':
             crc ^= 1 << int(p.get('pos', 0.3) * 31)
-        main.add_debuglink(linkname, crc)
+        main.add_debuglink(linkname, crc, trailing)
         mdata = main.build()
         peers = {linkname: peer}
         pf = None
@@ -495,7 +539,7 @@ def _c11_exec2(spec):
                 viol('accepted', 'ELFError (checksum of the served file differs from the link)',
                      res.get('exc') and list(res['exc']) or 'a view was returned')
         elif cfg == 'split_link':
-            res = open_view(mdata, peers=peers, follow=True, loader=True)
+            res = open_view(mdata, peers=peers, follow=True, loader=True, relative_base=rbase)
             same_view(res, cfg)
             if res['loads'] != [linkname]:
                 viol('loader-path', [linkname.decode('utf-8', 'replace')], [x.decode('utf-8', 'replace') for x in res['loads']])
@@ -686,6 +730,12 @@ def _truth_check(seg, truth, viol):
     exp = [[TAGNAME.get(t, t), v] for t, v in truth['tags']]
     if got != exp:
         viol('truth:tags', 'exactly the encoded entries up to and including the terminator', _first_diff(exp, got))
+    st, n = _try(seg.num_tags)
+    if st != 'ok' or n != len(exp):
+        viol('truth:num_tags', len(exp), jsonable(n, 200))
+    st, last = _try(lambda: [seg.get_tag(len(exp) - 1).entry.d_tag, seg.get_tag(len(exp) - 1).entry.d_val])
+    if st != 'ok' or last != exp[-1]:
+        viol('truth:get_tag(last)', exp[-1], jsonable(last, 200))
     strs = [[t.entry.d_tag, getattr(t, t.entry.d_tag[3:].lower(), None)] for t in tags
             if t.entry.d_tag in ('DT_NEEDED', 'DT_SONAME', 'DT_RPATH', 'DT_RUNPATH')]
     exps = [[TAGNAME[t], v] for t, v in truth['strings']]
@@ -694,6 +744,10 @@ def _truth_check(seg, truth, viol):
     st, syms = _try(lambda: [[x.name, x['st_value']] for x in seg.iter_symbols()])
     if st != 'ok' or syms != truth['symbols']:
         viol('truth:symbols', 'the encoded dynamic symbols', jsonable(syms, 300) if st != 'ok' else _first_diff(truth['symbols'], syms))
+    if truth.get('hashed'):
+        st, n = _try(seg.num_symbols)
+        if st != 'ok' or n != len(truth['symbols']):
+            viol('truth:num_symbols', len(truth['symbols']), jsonable(n, 200))
     st, tabs = _try(seg.get_relocation_tables)
     if st != 'ok':
         viol('truth:relocation tables', sorted(truth['rel']), jsonable(tabs, 300))
